@@ -56,7 +56,7 @@ CHECKS = {
    "Real server in a child process; every sent message carries a unique nonce; at each quiescence point authenticity (source/username), the privileged flag, exact delivery sets for broadcast / addressed / bad-destination / spoofed / unpermitted messages, socket closure of spoofers, and the replayed history (<= 50 entries, order, clearchat variants, age) are judged against the sender-side log. Held on the executions observed.",
    "Permission-dependent clauses are asserted only in epochs where the sender's permissions did not change; history age asserted only beyond 3.5 s / below 0.5 s with max-history-age 2 s.", "5/C15"),
  "C19": ("exploration", "syscall monitor (strace -f -y) of the real server with a sentinel tree around its directories + validator agreement on generated strings",
-   "The server runs under strace while hostile names (.., //, backslash, %-encodings, NUL, symlink components) are used as group name, username (in the join message, inside a stateful token, as the sub of a signed JWT), token group, URL paths, recording path, static path and delete-form filename (raw hand-written HTTP); every file syscall is attributed to one input and resolved (lexically, through live symlinks, and by the returned fd): writes/unlinks/renames must stay inside the roots, no sentinel may be touched, served or modified; validGroupName/validUsername/parseGroupName/sanitise are compared with a reference predicate on 10^5-10^7 strings. Held on the inputs tried; six open known findings rooted in os.Root of the pinned go1.24.0.",
+   "The server runs under strace while hostile names (.., //, backslash, %-encodings, NUL, symlink components) are used as group name, username (in the join message, inside a stateful token, as the sub of a signed JWT), token group, URL paths, recording path, static path and delete-form filename (raw hand-written HTTP); every file syscall is attributed to one input and resolved (lexically, through live symlinks, and by the returned fd): writes/unlinks/renames must stay inside the roots, no sentinel may be touched, served or modified; validGroupName/validUsername/parseGroupName/sanitise are compared with a reference predicate on 10^5-10^7 strings. Held on the inputs tried; four open known findings rooted in os.Root of the pinned go1.24.0.",
    "Operator-placed symlinks inside the groups directory are observed, not judged (lexical confinement); system reads are allow-listed from a benign baseline run.", "5/C19"),
  "C20": ("exploration", "ground-truth frame list vs the produced WebM/Matroska file parsed with an independent EBML reader; root-cause attribution with a stand-alone copy of the pinned sample builder",
    "The real diskwriter is driven through conn.Up/UpTrack (no hooks) with hash-identified Opus/VP8/VP9/H264 frames under delivery histories (reordering, duplicates, gaps the cache can or cannot fill, seqno and timestamp wrap, sender reports at any point); every block must be byte-identical to a sent frame, unique, ordered, with non-decreasing timecodes, complete from the first keyframe when everything is recoverable, in a well-formed container that is closed on stop/departure; an end-to-end tier records a real pion publisher (multi-packet VP8 + Opus, seqno/timestamp wraps, four ways of ending, camera added after 'record') through the real server. Held on the sessions run; open known findings: four in the pinned jech/samplebuilder dependency (one of them kills the server), three in diskwriter's time origin handling.",
